@@ -112,16 +112,24 @@ func (s *engineSuite) do(t []string) string {
 				ops = append(ops, op)
 			}
 		}
+		// pine:<k>:<v>[:<ttl>] cas:<k>:<new>:<old>[:<ttl>] put:<k>:<v>[:<ttl>] del:<k>; ttl in seconds (the unit of
+		// storage.BatchWrite), absent = 0 = the value never expires
+		ttlAt := func(f []string, i int) int64 {
+			if len(f) > i {
+				return int64(atoi(f[i]))
+			}
+			return 0
+		}
 		b := s.kv.BeginBatchWrite()
 		for _, op := range ops {
 			f := strings.Split(op, ":")
 			switch f[0] {
 			case "pine":
-				b.PutIfNotExist(unhx(f[1]), unhx(f[2]), 0)
+				b.PutIfNotExist(unhx(f[1]), unhx(f[2]), ttlAt(f, 3))
 			case "cas":
-				b.CAS(unhx(f[1]), unhx(f[2]), unhx(f[3]), 0)
+				b.CAS(unhx(f[1]), unhx(f[2]), unhx(f[3]), ttlAt(f, 4))
 			case "put":
-				b.Put(unhx(f[1]), unhx(f[2]), 0)
+				b.Put(unhx(f[1]), unhx(f[2]), ttlAt(f, 3))
 			case "del":
 				b.Del(unhx(f[1]))
 			default:
@@ -129,6 +137,10 @@ func (s *engineSuite) do(t []string) string {
 			}
 		}
 		return "batch " + commitLine(b.Commit(cctx))
+	case "sleep":
+		// sleep <ms>: real time passes (the engine's ttl timers run on the wall clock); the model advances its clock
+		time.Sleep(time.Duration(atoi(t[1])) * time.Millisecond)
+		return "slept"
 	case "bigbatch":
 		// bigbatch <n> <hexprefix>: ONE batch of n puts under the prefix followed by a compare-and-swap on a missing
 		// key (its condition fails): whatever error the engine reports (failed condition, or "transaction too big"),
